@@ -14,7 +14,9 @@ Reference model (independent of autoarray, explicit loops):
   (upper) every returned pixel has the walk property, (consistency) a FREE pixel is in the border iff the code put
   it in its own edge set.
 * views: native indices, masks and coordinate grids derived from a slim-index set must denote the same pixels as
-  that slim-index set, in slim (row-major) order; coordinates are pixel centres.
+  that slim-index set, in slim (row-major) order; coordinates are pixel centres.  Order is demanded of every view on
+  its own: slim indexes strictly increasing, native rows in row-major order, k-th unmasked pixel of the mask view ==
+  pixel of the k-th slim index, k-th grid row == centre of that pixel.
 """
 import numpy as np
 
@@ -26,25 +28,51 @@ ENGINE = "scope"
 CHUNK = 128
 RULE = (
     "cases = (family m) every boolean mask with >=1 unmasked pixel of every shape HxW with H*W <= bound, NOT restricted "
-    "to a masked outer ring, and (family w) every non-empty subset of a small window unmasked inside a larger, otherwise "
-    "masked frame (so that 3- and 5-wide kernels fit for some pixels and leave the array for others); per case all 9 "
-    "odd kernel shapes {1,3,5}^2 for blurring_from / Grid2D.blurring_grid_from and all edge/border views; "
+    "to a masked outer ring, (family w) every non-empty subset of a small window unmasked inside a larger, otherwise "
+    "masked frame (so that 3- and 5-wide kernels fit for some pixels and leave the array for others), and structured "
+    "large masks given by completely enumerated integer parameter boxes: (family r) rectangular annuli = a rectangle "
+    "with a rectangular masked hole, all four ring thicknesses independent, optionally an unmasked island inside the "
+    "hole, plus square rings of uniform thickness up to 40x40; (family d) discs and concentric circular annuli in exact "
+    "integer arithmetic, centred on a pixel centre / corner / side; (family t) unions of two rectangles, touching or "
+    "separated by a masked gap, side by side or stacked, with every relative shift; (family b) filled blocks up to "
+    "66x70 whose slim indexes exceed 127, 255 and 4095; per case all odd kernel shapes {1,3,5}^2 (thorough: also "
+    "{1,3,5,7}^2 at margin 3) for blurring_from / Grid2D.blurring_grid_from and all edge/border views, each view "
+    "(slim, native, mask, grid) checked for the pixel SET and, explicitly, for slim ORDER; "
     "non-trivial = the mask has a masked pixel and (some unmasked pixel is not a MUST-edge pixel, or some MUST-edge "
     "pixel is not a border pixel, or a kernel larger than 1x1 yields a result rather than the exception)"
 )
 ASSUMPTIONS = [
     "the pixel sets depend only on the boolean mask; pixel scales / origin only enter the coordinate-grid views "
     "affinely, so one (seed-chosen) anisotropic pixel scale and non-zero origin per run suffices",
-    "kernel half-widths 0, 1, 2 in each axis (shapes {1,3,5}^2, non-square included) represent all odd kernels: "
-    "the footprint test is monotone in the half-width and a 5-wide kernel already exceeds every frame of family m",
+    "kernel half-widths 0, 1, 2 (thorough: 3) in each axis (shapes {1,3,5}^2 / {1,3,5,7}^2, non-square included) "
+    "represent all odd kernels: the footprint test is monotone in the half-width, a 5-wide kernel already exceeds every "
+    "frame of family m, and the structured families contain holes / gaps both narrower and wider than every half-width",
+    "masks larger than the exhaustive bound of family m are represented by the structured families r, d, t, b (convex "
+    "blocks, holes with interior pixels further than a half-width from every border pixel, islands inside holes, two "
+    "components facing each other, concave unions); arbitrary topology is only exhaustive within families m and w",
+    "order of the views is checked up to slim indexes of about 4600 (66x70 block); quick has a few dozen masks with "
+    "more than 127 unmasked pixels, thorough every block 8..40 x 8..40",
     "edge_buffed is not defined by the property statement; only the part common to its docstring and its code is "
     "checked (masked pixels are unmasked iff 8-adjacent to an unmasked pixel; MUST-edge pixels stay unmasked)",
 ]
 BOUNDS = {
     "quick": "family m: all masks with <= 12 cells (all shapes incl. 1xN, Nx1; 35 943 masks); family w: 7x6 frame, "
-    "all 4095 non-empty subsets of the 4x3 window at (1,1) and of the 4x3 window at (2,2); x 9 kernel shapes {1,3,5}^2",
+    "all 4095 non-empty subsets of the 4x3 window at (1,1) and of the 4x3 window at (2,2); structured (4861 masks, "
+    "margin 2 unless stated): r = every rectangle 3..7 x 3..7 with every closed rectangular hole (thicknesses >= 1 on "
+    "all four sides) without / with the island inset by 1, plus square rings n=8..15 of every uniform thickness and "
+    "n=20,30,40 of thickness 1,2,5 (1415); d = frames 13x13, 14x14, 13x14, 14x13, 15x15, every doubled outer radius "
+    "2..side-5 and every doubled hole radius none,0..R-1 (distinct pixel sets), plus 12 discs / annuli of diameter "
+    "15..40 (178); t = rectangle sides {2,3,5}^4, gap 0..3, shift -2..2, both arrangements (3240); b = blocks "
+    "{10,12,16,24,40}^2, 66x70, 12x13 at margin 0, 17x12 at margin 1 (28); x 9 kernel shapes {1,3,5}^2",
     "thorough": "family m: all masks with <= 16 cells (576 600 masks); family w: 7x7 frame, all 65 535 non-empty "
-    "subsets of the 4x4 window at (1,1) and at (2,2), plus the quick windows; x 9 kernel shapes {1,3,5}^2",
+    "subsets of the 4x4 window at (1,1) and at (2,2), plus the quick windows; structured (70 949 masks): r = "
+    "rectangles 3..9 x 3..9, every closed hole, island inset 0,1,2, at margin 2 and (kernels {1,3,5,7}^2) at margin 3; "
+    "rectangles 3..7 with holes open to the outside (thickness 0 allowed); rectangles 3..6 at margins (1,2,3,2) and "
+    "(0,2,2,0); square rings 8..40; d = every frame 9..15 x 9..15 with every radius pair, plus discs / annuli of every "
+    "doubled radius 11..40 in three centrings with every third hole radius; t = rectangle sides {1..5}^4, gap 0..4, "
+    "shift -3..3 at margin 2 and sides {2,3,5}^4, gap 1..3, shift {-2,0,1} at margin 3 with kernels up to 7; b = every "
+    "block 8..40 x 8..40, 66x70, 70x66, 100x50, blocks {12,13,17}^2 at margins 0 and 1, {12,16,23,40}^2 at margin 3 "
+    "with kernels up to 7; x 9 kernel shapes {1,3,5}^2 unless stated",
 }
 
 KERNELS = [(1, 1), (1, 3), (3, 1), (3, 3), (1, 5), (5, 1), (3, 5), (5, 3), (5, 5)]
@@ -69,27 +97,216 @@ def geometry(seed):
 def cases(tier, seed):
     geo = geometry(seed)
     n = 12 if tier == "quick" else 16
-    # simplest first: all masks up to 9 cells, then the window family, then the rest of family m
+    # simplest first: all masks up to 9 cells, then the window family, then the structured large masks (the few slow ones
+    # spread out so that no chunk collects them), then the rest of family m
     for (h, w, bits) in dom.all_mask_cases(9):
         yield ["m", h, w, bits] + geo
     for (H, W, y0, x0, hh, ww) in WINDOWS[tier]:
         for bits in range(1, 2 ** (hh * ww)):
             yield ["w", H, W, y0, x0, hh, ww, bits] + geo
+    for head in structured_cases(tier):
+        yield head + geo
     for (h, w, bits) in dom.all_mask_cases(n):
         if h * w > 9:
             yield ["m", h, w, bits] + geo
+
+
+# ----------------------------------------------------------------------------- structured large masks (families r, d, t, b)
+#
+# Every family is a completely enumerated parameter box; the mask is a pure function of the integer parameters, so a
+# case is replayable from its JSON form.  The last entry of every head is kmax: the blurring kernels are all odd shapes
+# {1,3,..,kmax}^2.
+
+
+def ra_mask(gt, gb, gl, gr, oh, ow, t, b, l, r, isl):
+    """Rectangle oh x ow at margins (gt, gb, gl, gr) inside the frame, with a rectangular masked hole leaving
+    thicknesses (t, b, l, r) of unmasked pixels on its four sides (a thickness of 0 opens the hole to the outside: U / C /
+    two-bar shapes) and, if isl > 0, an unmasked island = the hole shrunk by isl on every side (a mask inside a hole)."""
+    m = np.ones((gt + oh + gb, gl + ow + gr), dtype=bool)
+    m[gt:gt + oh, gl:gl + ow] = False
+    y0, y1, x0, x1 = gt + t, gt + oh - b, gl + l, gl + ow - r
+    if y1 > y0 and x1 > x0:
+        m[y0:y1, x0:x1] = True
+        if isl > 0 and y1 - y0 > 2 * isl and x1 - x0 > 2 * isl:
+            m[y0 + isl:y1 - isl, x0 + isl:x1 - isl] = False
+    return m
+
+
+def da_mask(H, W, R, r):
+    """Disc / circular annulus about the frame centre in exact integer arithmetic: with doubled coordinates
+    (2i-(H-1), 2j-(W-1)) a pixel is unmasked iff r^2 < d^2 <= R^2 (r < 0: no hole).  Odd frame sides put the centre on a
+    pixel centre, even sides on a pixel corner, mixed sides on the middle of a pixel side."""
+    yy = (2 * np.arange(H) - (H - 1))[:, None]
+    xx = (2 * np.arange(W) - (W - 1))[None, :]
+    d2 = yy * yy + xx * xx
+    u = d2 <= R * R
+    if r >= 0:
+        u &= d2 > r * r
+    return ~u
+
+
+def tc_mask(g, ah, aw, bh, bw, side, gap, shift):
+    """Union of two rectangles A (ah x aw) and B (bh x bw): side 0 puts B to the right of A behind `gap` masked columns,
+    shifted down by `shift` rows (negative: up); side 1 puts B below A behind `gap` masked rows, shifted right by `shift`
+    columns.  gap 0 makes them touch (one L / T / step shaped component), gap >= 1 gives two components.  g is the margin
+    between the bounding box of the union and the frame."""
+    if side == 0:
+        ay, ax, by, bx = max(0, -shift), 0, max(0, shift), aw + gap
+    else:
+        ay, ax, by, bx = 0, max(0, -shift), ah + gap, max(0, shift)
+    hh = max(ay + ah, by + bh)
+    ww = max(ax + aw, bx + bw)
+    m = np.ones((hh + 2 * g, ww + 2 * g), dtype=bool)
+    m[g + ay:g + ay + ah, g + ax:g + ax + aw] = False
+    m[g + by:g + by + bh, g + bx:g + bx + bw] = False
+    return m
+
+
+def bk_mask(g, h, w):
+    """Filled h x w block at margin g."""
+    m = np.ones((h + 2 * g, w + 2 * g), dtype=bool)
+    m[g:g + h, g:g + w] = False
+    return m
+
+
+def _ra_heads(sizes, lo, isls, margins, kmax):
+    for (oh, ow) in sizes:
+        for t in range(lo, oh):
+            for b in range(lo, oh - t):
+                for l in range(lo, ow):
+                    for r in range(lo, ow - l):
+                        if t == b == l == r == 0:
+                            continue  # hole == whole rectangle: nothing unmasked
+                        for isl in isls:
+                            if isl > 0 and not (oh - t - b > 2 * isl and ow - l - r > 2 * isl):
+                                continue  # no room for an island: same mask as isl == 0
+                            yield ["r"] + list(margins) + [oh, ow, t, b, l, r, isl, kmax]
+
+
+def _ring_heads(ns, ts, isls, g, kmax):
+    """Square frames-with-holes n x n of uniform thickness t (members of family r far beyond its complete box)."""
+    for n in ns:
+        for t in ts(n):
+            if n - 2 * t < 1:
+                continue
+            for isl in isls:
+                if isl > 0 and not (n - 2 * t > 2 * isl):
+                    continue
+                yield ["r", g, g, g, g, n, n, t, t, t, t, isl, kmax]
+
+
+def _da_heads(frames, g, kmax, rs=None):
+    for (H, W) in frames:
+        seen = set()
+        for R in range(2, min(H, W) - 2 * g):
+            for r in (range(-1, R) if rs is None else rs(R)):
+                key = da_mask(H, W, R, r).tobytes()
+                if key in seen or not (~da_mask(H, W, R, r)).any():
+                    continue  # same pixel set as a smaller (R, r) / empty
+                seen.add(key)
+                yield ["d", H, W, R, r, kmax]
+
+
+def _tc_heads(dims, gaps, shifts, g, kmax):
+    for ah in dims:
+        for aw in dims:
+            for bh in dims:
+                for bw in dims:
+                    for side in (0, 1):
+                        for gap in gaps:
+                            for shift in shifts:
+                                yield ["t", g, ah, aw, bh, bw, side, gap, shift, kmax]
+
+
+def _square(lo, hi):
+    return [(a, b) for a in range(lo, hi + 1) for b in range(lo, hi + 1)]
+
+
+def structured_cases(tier):
+    quick = tier == "quick"
+    cheap, big = [], []
+    # family r: rectangular annuli (closed holes, optional island), complete box
+    cheap += _ra_heads(_square(3, 7), 1, (0, 1), (2, 2, 2, 2), 5)
+    cheap += _ring_heads(range(8, 16), lambda n: range(1, (n - 1) // 2 + 1), (0, 1), 2, 5)
+    # family d: discs with and without concentric holes in 12..15-pixel frames (pixel-, corner- and side-centred)
+    cheap += _da_heads([(13, 13), (14, 14), (13, 14), (14, 13), (15, 15)] if quick else _square(9, 15), 2, 5)
+    # family t: unions of two rectangles
+    if quick:
+        cheap += _tc_heads((2, 3, 5), (0, 1, 2, 3), (-2, -1, 0, 1, 2), 2, 5)
+    else:
+        cheap += _tc_heads((1, 2, 3, 4, 5), (0, 1, 2, 3, 4), (-3, -2, -1, 0, 1, 2, 3), 2, 5)
+        cheap += _tc_heads((2, 3, 5), (1, 2, 3), (-2, 0, 1), 3, 7)
+        cheap += _ra_heads(_square(3, 9), 1, (0, 1, 2), (2, 2, 2, 2), 5)  # repeats the quick box: kept for simplicity
+        cheap += _ra_heads(_square(3, 9), 1, (0, 1), (3, 3, 3, 3), 7)
+        cheap += _ra_heads(_square(3, 7), 0, (0,), (2, 2, 2, 2), 5)  # holes open to the outside (U / C / bars)
+        cheap += _ra_heads(_square(3, 6), 1, (0, 1), (1, 2, 3, 2), 5)  # margins smaller / larger than the half-widths
+        cheap += _ra_heads(_square(3, 6), 1, (0,), (0, 2, 2, 0), 5)
+    # large members (slim indexes beyond 127, 255, 4095): filled blocks, thick and thin rings, discs and annuli
+    if quick:
+        big += [["b", 2, h, w, 5] for h in (10, 12, 16, 24, 40) for w in (10, 12, 16, 24, 40)]
+        big += [["b", 2, 66, 70, 5], ["b", 0, 12, 13, 5], ["b", 1, 17, 12, 5]]
+        big += _ring_heads((20, 30, 40), lambda n: (1, 2, 5), (0, 1), 2, 5)
+        for (H, W, R) in [(19, 19, 14), (21, 20, 15), (31, 31, 26), (44, 45, 39)]:
+            big += [["d", H, W, R, r, 5] for r in (-1, R // 3, R - 5)]
+    else:
+        big += [["b", 2, h, w, 5] for (h, w) in _square(8, 40)]
+        big += [["b", g, h, w, 5] for g in (0, 1) for h in (12, 13, 17) for w in (12, 13, 17)]
+        big += [["b", 3, h, w, 7] for h in (12, 16, 23, 40) for w in (12, 16, 23, 40)]
+        big += [["b", 2, 66, 70, 5], ["b", 2, 70, 66, 5], ["b", 2, 100, 50, 5]]
+        big += _ring_heads(range(16, 41), lambda n: range(1, (n - 1) // 2 + 1, 2), (0, 1), 2, 5)
+        for R in range(11, 41):
+            for (ph, pw) in ((0, 0), (1, 1), (0, 1)):
+                H, W = R + 5 + (R + ph) % 2, R + 5 + (R + pw) % 2
+                big += [["d", H, W, R, r, 5] for r in range(-1, R, 3)]
+    seen = set()
+    step = max(1, len(cheap) // (len(big) + 1))
+    big = list(reversed(big))
+    for k, head in enumerate(cheap):
+        if k % step == 0 and big:
+            yield big.pop()
+        if tuple(head) in seen:
+            continue
+        seen.add(tuple(head))
+        yield head
+    while big:
+        yield big.pop()
+
+
+STRUCT = {
+    "r": (lambda a: ra_mask(*a[:11]), "rect-annulus(margins t,b,l,r=%d,%d,%d,%d; outer %dx%d; ring thickness t,b,l,r=%d,%d,%d,%d; island inset %d)"),
+    "d": (lambda a: da_mask(*a[:4]), "disc(frame %dx%d; doubled radii outer %d, hole %d)"),
+    "t": (lambda a: tc_mask(*a[:8]), "two-rectangles(margin %d; A %dx%d; B %dx%d; side %d; gap %d; shift %d)"),
+    "b": (lambda a: bk_mask(*a[:3]), "block(margin %d; %dx%d)"),
+}
 
 
 def mask_of(case):
     if case[0] == "m":
         _, h, w, bits = case[:4]
         return dom.mask_from_bits(h, w, bits), case[4:8]
+    if case[0] in STRUCT:
+        return STRUCT[case[0]][0]([int(a) for a in case[1:-5]]), case[-4:]
     _, H, W, y0, x0, hh, ww, bits = case[:8]
     m = np.ones((H, W), dtype=bool)
     for k in range(hh * ww):
         if (bits >> k) & 1:  # bit set <=> UNMASKED
             m[y0 + k // ww, x0 + k % ww] = False
     return m, case[8:12]
+
+
+def label_of(case, m):
+    """Compact description of a structured mask for messages (the full pixel list of a 40x40 mask is useless)."""
+    if case[0] not in STRUCT:
+        return None
+    return "%s shape=%dx%d unmasked=%d" % (
+        STRUCT[case[0]][1] % tuple(int(a) for a in case[1:-5]), m.shape[0], m.shape[1], int((~m).sum()))
+
+
+def kernels_of(case):
+    if case[0] not in STRUCT or int(case[-5]) == 5:
+        return KERNELS
+    odd = range(1, int(case[-5]) + 1, 2)
+    return [(a, b) for a in odd for b in odd]
 
 
 # ----------------------------------------------------------------------------- reference model
@@ -236,7 +453,7 @@ def run_case(case):
     m, geo = mask_of(case)
     geo = [float(g) for g in geo]
     mask = aa.Mask2D(mask=m.copy(), pixel_scales=(geo[0], geo[1]), origin=(geo[2], geo[3]))
-    _check_mask(aa, exc, v, mask, m, geo, case, "")
+    _check_mask(aa, exc, v, mask, m, geo, case, label_of(case, m), kernels_of(case))
     keep = (v.nontrivial, v.outcome)
     # ---- history: views were read on `mask`; a copy of it, then the mask object itself, is edited in place (one more pixel
     # masked) and every view is read again: each must describe the edited mask, not the mask as it was first read
@@ -257,7 +474,23 @@ def run_case(case):
     return v.result()
 
 
-def _check_mask(aa, exc, v, mask, m, geo, case, _unused):
+def short(lst, k=24):
+    """List printed in full up to 2k entries, else head ... tail (messages are cut at 600 characters)."""
+    lst = list(lst)
+    if len(lst) <= 2 * k:
+        return str(lst)
+    return "%s ...(%d more)... %s" % (str(lst[:k])[:-1], len(lst) - 2 * k, str(lst[-k:])[1:])
+
+
+def first_descent(lst):
+    """Position of the first entry that is not larger than its predecessor, with its neighbourhood."""
+    for k in range(len(lst) - 1):
+        if not lst[k] < lst[k + 1]:
+            return "entries %d..%d are %s" % (max(0, k - 1), min(len(lst), k + 3) - 1, lst[max(0, k - 1):k + 3])
+    return "none"
+
+
+def _check_mask(aa, exc, v, mask, m, geo, case, label=None, kernels=KERNELS):
     H, W = m.shape
 
     px = ref_unmasked(m)
@@ -265,7 +498,10 @@ def _check_mask(aa, exc, v, mask, m, geo, case, _unused):
     must, mustnot, free = ref_edge_classes(m)
     ring = dom.touches_frame(m)
     sfx = ":outer-ring" if ring else ""
-    desc = lambda: "mask=%s" % m.astype(int).tolist()
+    desc = (lambda: "mask=%s" % label) if label else (lambda: "mask=%s" % m.astype(int).tolist())
+    slim_of = {p: k for k, p in enumerate(px)}
+    show = (lambda a: "<%dx%d array, %d unmasked: %s>" % (a.shape + (int((~a).sum()), short(ref_unmasked(a), 8)))) if label else (
+        lambda a: a.astype(int).tolist())
 
     # ------------------------------------------------------------------ edge
     di = mask.derive_indexes
@@ -284,22 +520,22 @@ def _check_mask(aa, exc, v, mask, m, geo, case, _unused):
         c1 = v.ok(
             all(e_lst[k] < e_lst[k + 1] for k in range(len(e_lst) - 1)),
             fe,
-            lambda: "%s edge_slim not strictly increasing: %s" % (desc(), e_lst),
+            lambda: "%s edge_slim not strictly increasing (slim order): %s; edge_slim=%s" % (desc(), first_descent(e_lst), short(e_lst)),
         )
         c2 = v.ok(
             must <= e_set,
             fe,
             lambda: "%s edge_slim=%s (pixels %s) misses pixels with a masked 8-neighbour: %s (slim %s)"
-            % (desc(), e_lst, e_px, sorted(must - e_set), sorted(px.index(p) for p in must - e_set)),
+            % (desc(), short(e_lst), short(e_px), short(sorted(must - e_set)), short(sorted(slim_of[p] for p in must - e_set))),
         )
         c3 = v.ok(
             not (e_set & mustnot),
             fe,
             lambda: "%s edge_slim=%s contains pixels whose 8 neighbours all exist and are unmasked: %s"
-            % (desc(), e_lst, sorted(e_set & mustnot)),
+            % (desc(), short(e_lst), short(sorted(e_set & mustnot))),
         )
         edge_valid = c1 and c2 and c3
-        check_views(aa, v, mask, m, geo, "edge", e_lst, px)
+        check_views(aa, v, mask, m, geo, "edge", e_lst, px, label)
 
     # ------------------------------------------------------------------ border
     fb = "border_slim" + sfx
@@ -317,20 +553,20 @@ def _check_mask(aa, exc, v, mask, m, geo, case, _unused):
         v.ok(
             all(b_lst[k] < b_lst[k + 1] for k in range(len(b_lst) - 1)),
             fb,
-            lambda: "%s border_slim not strictly increasing: %s" % (desc(), b_lst),
+            lambda: "%s border_slim not strictly increasing (slim order): %s; border_slim=%s" % (desc(), first_descent(b_lst), short(b_lst)),
         )
         v.ok(
             must_border <= b_set,
             fb,
             lambda: "%s border_slim=%s (pixels %s) misses edge pixels with an all-masked axis walk: %s (slim %s)"
-            % (desc(), b_lst, b_px, sorted(must_border - b_set), sorted(px.index(p) for p in must_border - b_set)),
+            % (desc(), short(b_lst), short(b_px), short(sorted(must_border - b_set)), short(sorted(slim_of[p] for p in must_border - b_set))),
         )
         bad = [p for p in b_px if not ref_walk(m, p[0], p[1]) or p in mustnot]
         v.ok(
             not bad,
             fb,
             lambda: "%s border_slim=%s contains pixels with no all-masked axis walk / non-edge pixels: %s"
-            % (desc(), b_lst, bad),
+            % (desc(), short(b_lst), short(bad)),
         )
         if edge_valid:
             # latitude: a FREE pixel (always has an empty walk) is a border pixel iff the code calls it an edge pixel
@@ -339,9 +575,9 @@ def _check_mask(aa, exc, v, mask, m, geo, case, _unused):
                 not incons,
                 "border_slim-vs-edge_slim:free-pixels",
                 lambda: "%s pixels on the array boundary with no masked neighbour are treated differently by "
-                "edge_slim=%s and border_slim=%s: %s" % (desc(), e_lst, b_lst, incons),
+                "edge_slim=%s and border_slim=%s: %s" % (desc(), short(e_lst), short(b_lst), short(incons)),
             )
-        check_views(aa, v, mask, m, geo, "border", b_lst, px)
+        check_views(aa, v, mask, m, geo, "border", b_lst, px, label)
 
     # ------------------------------------------------------------------ edge_buffed (weak: see ASSUMPTIONS)
     eb, err = attempt(lambda: np.array(mask.derive_mask.edge_buffed))
@@ -360,12 +596,12 @@ def _check_mask(aa, exc, v, mask, m, geo, case, _unused):
                         ok_eb = False
                 elif (i, j) in must and eb[i, j]:
                     ok_eb = False
-    v.ok(ok_eb, "edge_buffed", lambda: "%s edge_buffed=%s" % (desc(), eb.astype(int).tolist()))
+    v.ok(ok_eb, "edge_buffed", lambda: "%s edge_buffed=%s" % (desc(), show(eb)))
 
     # ------------------------------------------------------------------ blurring
     n_res = 0
     n_res_big = 0
-    for (kh, kw) in KERNELS:
+    for (kh, kw) in kernels:
         want = ref_blurring(m, kh, kw)
         kd = lambda: "%s kernel=%s" % (desc(), (kh, kw))
         bl_returned = None
@@ -383,7 +619,7 @@ def _check_mask(aa, exc, v, mask, m, geo, case, _unused):
                     v.fail(
                         site + ":no-exception",
                         lambda: "%s: a footprint leaves the array but a result was returned: %s"
-                        % (kd(), np.array(got.mask if site == "blurring_grid_from" else got).astype(int).tolist()),
+                        % (kd(), show(np.array(got.mask if site == "blurring_grid_from" else got))),
                     )
                 else:
                     v.ok(
@@ -405,7 +641,7 @@ def _check_mask(aa, exc, v, mask, m, geo, case, _unused):
                 v.ok(
                     g.shape == want.shape and g.dtype == bool and bool(np.array_equal(g, want)),
                     "blurring_from",
-                    lambda: "%s got=%s want=%s" % (kd(), g.astype(int).tolist(), want.astype(int).tolist()),
+                    lambda: "%s %s got=%s want=%s" % (kd(), blur_diff(g, want, m, kh, kw), show(g), show(want)),
                 )
                 bl_returned = g
             else:
@@ -416,14 +652,15 @@ def _check_mask(aa, exc, v, mask, m, geo, case, _unused):
                 v.ok(
                     gm.shape == ref_m.shape and bool(np.array_equal(gm, ref_m)),
                     "views-disagree:blurring_grid_from",
-                    lambda: "%s grid.mask=%s blurring mask=%s" % (kd(), gm.astype(int).tolist(), ref_m.astype(int).tolist()),
+                    lambda: "%s grid.mask=%s blurring mask=%s" % (kd(), show(gm), show(ref_m)),
                 )
                 gc = np.array(got.slim)
                 wc = ref_centres(bpx, m.shape, geo)
                 v.ok(
                     coords_close(gc, wc, geo, m.shape),
                     "views-disagree:blurring_grid_from",
-                    lambda: "%s grid=%s want centres of %s = %s" % (kd(), gc.tolist(), bpx, wc.tolist()),
+                    lambda: "%s %s grid=%s want centres of %s = %s"
+                    % (kd(), rows_diff(gc, wc), short(gc.tolist(), 6), short(bpx, 6), short(wc.tolist(), 6)),
                 )
 
     v.nontrivial = bool(m.any()) and (must != set(px) or must_border != must or n_res_big > 0)
@@ -431,11 +668,37 @@ def _check_mask(aa, exc, v, mask, m, geo, case, _unused):
     return v.result()
 
 
-def check_views(aa, v, mask, m, geo, which, lst, px):
-    """native / mask / grid views of the slim-index set `lst` (as returned by the library) denote the same pixels."""
+def blur_diff(g, want, m, kh, kw):
+    """Where a returned blurring mask differs from the definition (first few pixels of each kind)."""
+    if g.shape != want.shape or g.dtype != bool:
+        return "shape/dtype %s %s" % (g.shape, g.dtype)
+    missing = [tuple(int(t) for t in p) for p in np.argwhere(~want & g)]
+    extra = [tuple(int(t) for t in p) for p in np.argwhere(want & ~g)]
+    return "masked pixels inside the %dx%d footprint of an unmasked pixel but not unmasked in the result: %s; unmasked in the result but outside every footprint (or not masked in the mask): %s;" % (
+        kh, kw, short(missing, 6), short(extra, 6))
+
+
+def rows_diff(got, want):
+    got = np.asarray(got, dtype=float)
+    if got.shape != want.shape:
+        return "shape %s, want %s;" % (got.shape, want.shape)
+    if want.size == 0:
+        return ""
+    bad = np.nonzero(np.abs(got - want).max(axis=1) > 1e-9)[0]
+    if bad.size == 0:
+        return "(differences below 1e-9)"
+    k = int(bad[0])
+    return "%d of %d rows differ, first at row %d: got %s want %s;" % (bad.size, want.shape[0], k, got[k].tolist(), want[k].tolist())
+
+
+def check_views(aa, v, mask, m, geo, which, lst, px, label=None):
+    """native / mask / grid views of the slim-index set `lst` (as returned by the library) denote the same pixels, each
+    of them in slim (row-major) order whatever the order of `lst` itself."""
     want_px = [px[k] for k in lst]
     ordered = sorted(set(want_px))  # slim order == row-major order
-    desc = lambda: "mask=%s %s_slim=%s" % (m.astype(int).tolist(), which, lst)
+    desc = lambda: "mask=%s %s_slim=%s" % (label or m.astype(int).tolist(), which, short(lst))
+    show = (lambda a: "<%dx%d array, %d unmasked: %s>" % (a.shape + (int((~a).sum()), short(ref_unmasked(a), 8)))) if label else (
+        lambda a: a.astype(int).tolist())
 
     want_m = mask_with(m.shape, ordered)
     wc = ref_centres(ordered, m.shape, geo)
@@ -448,7 +711,16 @@ def check_views(aa, v, mask, m, geo, which, lst, px):
         and np.issubdtype(nat.dtype, np.integer)
         and bool(np.array_equal(nat, want_nat)),
         "views-disagree:%s_native" % which,
-        lambda: "%s %s_native=%s want %s" % (desc(), which, err or nat.tolist(), want_nat.tolist()),
+        lambda: "%s %s_native=%s want %s" % (desc(), which, err or short(nat.tolist()), short(want_nat.tolist())),
+    )
+    # explicit order: the rows of the native view are the pixels of the set in ascending slim (row-major) order
+    ord_nat = np.array(ordered, dtype=int).reshape(-1, 2)
+    v.ok(
+        err is None and nat.shape == ord_nat.shape and bool(np.array_equal(nat, ord_nat)),
+        "views-disagree:%s_native" % which,
+        lambda: "%s %s_native is not the pixel set in slim (row-major) order: %s; %s_native=%s want %s"
+        % (desc(), which, err or first_descent([tuple(r) for r in nat.tolist()]), which, err or short(nat.tolist()),
+           short(ord_nat.tolist())),
     )
 
     dm, err = attempt(lambda: np.array(getattr(mask.derive_mask, which)))
@@ -456,7 +728,14 @@ def check_views(aa, v, mask, m, geo, which, lst, px):
         err is None and dm.shape == want_m.shape and dm.dtype == bool and bool(np.array_equal(dm, want_m)),
         "views-disagree:derive_mask.%s" % which,
         lambda: "%s derive_mask.%s=%s want %s"
-        % (desc(), which, err or dm.astype(int).tolist(), want_m.astype(int).tolist()),
+        % (desc(), which, err or show(dm), show(want_m)),
+    )
+    # explicit order: the k-th unmasked pixel (row-major) of the mask view is the pixel of the k-th slim index
+    v.ok(
+        err is None and dm.shape == want_m.shape and ref_unmasked(dm) == want_px,
+        "views-disagree:derive_mask.%s" % which,
+        lambda: "%s the k-th unmasked pixel of derive_mask.%s is not the pixel of the k-th entry of %s_slim: mask view pixels %s, "
+        "slim view pixels %s" % (desc(), which, which, err or short(ref_unmasked(dm)), short(want_px)),
     )
 
     def grid_view():
@@ -470,6 +749,15 @@ def check_views(aa, v, mask, m, geo, which, lst, px):
         and gg[1].shape == want_m.shape
         and bool(np.array_equal(gg[1], want_m)),
         "views-disagree:derive_grid.%s" % which,
-        lambda: "%s derive_grid.%s=%s want centres of %s = %s"
-        % (desc(), which, err or (gg[0].tolist(), gg[1].astype(int).tolist()), ordered, wc.tolist()),
+        lambda: "%s derive_grid.%s: %s got %s want centres of %s = %s"
+        % (desc(), which, err or rows_diff(gg[0], wc), err or (short(gg[0].tolist(), 6), show(gg[1])), short(ordered, 6),
+           short(wc.tolist(), 6)),
+    )
+    # explicit order: row k of the grid view is the centre of the pixel of the k-th slim index
+    wc_lst = ref_centres(want_px, m.shape, geo)
+    v.ok(
+        err is None and coords_close(gg[0], wc_lst, geo, m.shape),
+        "views-disagree:derive_grid.%s" % which,
+        lambda: "%s row k of derive_grid.%s is not the centre of the pixel of the k-th entry of %s_slim: %s"
+        % (desc(), which, which, err or rows_diff(gg[0], wc_lst)),
     )
